@@ -174,6 +174,12 @@ package client
 //@ ensures[only-acked-removed] c.qs != nil ==> (forall i in 0..len(c.qs.resultq) :: c.qs.resultq[i] != nil && !(exists j in 0..len(res) :: res[j].OperationID == c.qs.resultq[i].OperationID))
 //@ ensures[others-kept] c.qs != nil ==> forall i in 0..old(len(c.qs.resultq)) :: !(exists j in 0..len(res) :: res[j].OperationID == old(c.qs.resultq[i]).OperationID)
 //@    ==> (exists k in 0..len(c.qs.resultq) :: c.qs.resultq[k] == old(c.qs.resultq[i]))
+// the call fails exactly when some result named in res is not in the queue (nothing to acknowledge under that id)
+//@ ensures[error-iff-unknown-id] c.qs != nil ==> (result0 != nil <==> (exists j in 0..len(res) :: !(exists i in 0..old(len(c.qs.resultq)) :: old(c.qs.resultq[i]).OperationID == res[j].OperationID)))
+//@ loop 1 invariant forall k in dom(toACK) :: !toACK[k]
+//@ loop 2 invariant[seen-marked] forall k in dom(toACK) :: toACK[k] <==> (exists i in 0..loopi :: ranged[i].OperationID == k)
+//@ loop 3 at "range toACK" invariant len(errs.errors) > 0 <==> (exists k in visited :: k in dom(toACK) && !toACK[k])
+//@ loop 3 invariant toACK != nil && (forall k: uint64 :: k in dom(toACK) <==> (exists j in 0..len(res) :: res[j].OperationID == k)) && (forall k in dom(toACK) :: toACK[k] <==> (exists i in 0..old(len(c.qs.resultq)) :: old(c.qs.resultq[i]).OperationID == k))
 //@ loop 1 at "range res" invariant toACK != nil && (forall k: uint64 :: k in dom(toACK) <==> (exists j in 0..loopi :: res[j].OperationID == k))
 //@ loop 2 at "range c.qs.resultq" invariant held(c.qs.resultMu) == 2 && toACK != nil && (forall k: uint64 :: k in dom(toACK) <==> (exists j in 0..len(res) :: res[j].OperationID == k))
 //@ loop 2 invariant (forall i in 0..len(nrq) :: nrq[i] != nil && !(nrq[i].OperationID in dom(toACK)))
